@@ -568,6 +568,10 @@ func (r *runner) invoke(ctx context.Context, s M, ret M) {
 		r.sess, r.v2sess = nil, nil
 	case "ConnClose":
 		setErr(r.conn.Close())
+		if o, ok := r.sc["opts"].(map[string]any); ok && o["closeTwice"] == true {
+			// a second Close of the same connection (a deferred Close after an explicit one): an error at most
+			_ = r.conn.Close()
+		}
 	case "DialV2": // the library's own dialler (hook-free): an unusable address fails, a loopback address succeeds
 		c, err := bmc.DialV2(args["addr"].(string))
 		setErr(err)
